@@ -8,7 +8,9 @@
 package bpfsys
 
 import (
+	"errors"
 	"fmt"
+	"os"
 	"runtime"
 	"sync"
 	"unsafe"
@@ -233,6 +235,11 @@ var (
 // Available reports (once) whether this process may create maps and load programs.
 func Available() error {
 	availOnce.Do(func() {
+		if os.Getenv("VERIF_NO_BPF") != "" {
+			// lets the interpreter-only path of the checks be exercised on a machine where bpf() works
+			availErr = errors.New("bpf() disabled by VERIF_NO_BPF")
+			return
+		}
 		m, err := CreateMap(MapTypeArray, 4, 8, 1, 0, "verif_probe")
 		if err != nil {
 			availErr = err
